@@ -2,7 +2,10 @@
 
 package v2
 
-import "github.com/iotaledger/iota.go/consts"
+import (
+	"github.com/iotaledger/iota.go/consts"
+	"github.com/iotaledger/iota.go/trinary"
+)
 
 // Simulation hooks (see simhook_on.go). Without the verif build tag they are empty and inlined away.
 
@@ -15,5 +18,7 @@ const (
 func simYield(string, int) {}
 
 func simState(_, _ *[consts.HashTrinarySize]uint, _ uint64) {}
+
+func simDigest(trinary.Trits, uint64) {}
 
 func simWorkerID(*Worker, uint64) int { return 0 }
